@@ -1,6 +1,9 @@
 """World W1: root -> app -> {lib, lib2?}, class cls inherited by lib, tool package gen, import sources
 src/lib/*, deterministic checkout scripts.  15 features, each a toggle."""
 FEATURES = ['libscript', 'clssetup', 'var', 'invars', 'lib2', 'reparam', 'provide', 'toolpath', 'srcmod', 'srcadd', 'define', 'defval', 'twovar', 'urlsrc', 'coscript']
+# features only C16 toggles (a third variant of lib; two recipes that produce identical packages); zero() includes them, the
+# other checks never set them
+EXTRA = ['threevar', 'twins']
 
 HELPERS = '''    reveal() {      # pure bash (process creation is the bottleneck of this sandbox)
         local d f line
@@ -25,7 +28,7 @@ HELPERS = '''    reveal() {      # pure bash (process creation is the bottleneck
 
 
 def zero():
-    return {f: 0 for f in FEATURES}
+    return {f: 0 for f in FEATURES + EXTRA}
 
 
 def files(v):
@@ -39,19 +42,22 @@ def files(v):
                               'environment:\n    VAR: "%s"\n'
                               'buildVars: [DEF]\n'
                               'buildScript: |\n    vlog "root build"\n    fault root-build\n    : > "witness-${DEF:-}"\n    { echo "root-build DEF=${DEF:-}"; reveal "${@:2}"; } > result.txt\n'
-                              'packageScript: |\n    vlog "root package"\n    fault root-package\n    { echo root-pkg; reveal "$1"; } > result.txt\n') % (
-                                  '    - name: lib\n      environment: {P: "y"}\n' if v['twovar'] else '', 'ab'[v['var']])
+                              'packageVars: [DEF]\n'
+                              'packageScript: |\n    vlog "root package"\n    fault root-package\n    { echo root-pkg; reveal "$1"; } > result.txt\n    ln -s "/nonexistent/release-${DEF:-}" "current-${DEF:-}"\n') % (
+                                  ('    - name: lib\n      environment: {P: "y"}\n' if v['twovar'] else '') +
+                                  ('    - via3\n' if v.get('threevar') else '') +
+                                  ('    - alpha\n    - beta\n' if v.get('twins') else ''), 'ab'[v['var']])
     libvars = ['P'] + (['VAR'] if v['invars'] else [])
     f['recipes/lib.yaml'] = ('inherit: [base, cls]\n'
                              'checkoutSCM:\n    scm: import\n    url: src/lib\n'
                              'checkoutDeterministic: True\n'
-                             'checkoutScript: |\n    vlog "lib checkout"%s\n    echo generated > generated.txt\n'
+                             'checkoutScript: |\n    vlog "lib checkout"\n    echo generated%s > generated.txt\n'
                              'metaEnvironment:\n    LICENSE: "MIT"\n'
                              'buildVars: [%s]\n'
                              'buildTools: [gen]\n'
                              'buildScript: |\n    vlog "lib build"\n    fault lib-build\n    : > "witness-v%d-${VAR:-}-${P:-}"\n    { echo "lib-build-v%d VAR=${VAR:-} P=${P:-}"; cls_fn; gen; reveal "$@"; } > result.txt\n'
                              'packageScript: |\n    vlog "lib package"\n    fault lib-package\n    { echo lib-pkg; reveal "$1"; } > result.txt\n'
-                             'provideVars:\n    PROVIDED: "prov-v%d"\n') % ('\n    # comment only' if v['coscript'] else '', ', '.join(libvars), v['libscript'], v['libscript'], v['provide'])
+                             'provideVars:\n    PROVIDED: "prov-v%d"\n') % ('-v1' if v['coscript'] else '', ', '.join(libvars), v['libscript'], v['libscript'], v['provide'])
     deps = '    - name: lib\n      use: [result, environment]\n'
     if v['reparam']: deps += '      environment: {P: "x"}\n'
     if v['lib2']: deps += '    - lib2\n'
@@ -76,6 +82,15 @@ def files(v):
                              '    printf \'#!/bin/sh\\necho gen-from-bin\\n\' > bin/gen\n    printf \'#!/bin/sh\\necho gen-from-bin2\\n\' > bin2/gen\n    chmod +x bin/gen bin2/gen\n'
                              'packageScript: |\n    vlog "gen package"\n    cp -a "$1"/bin "$1"/bin2 .\n'
                              'provideTools:\n    gen: "bin%s"\n') % ('2' if v['toolpath'] else '')
+    if v.get('threevar'):
+        f['recipes/via3.yaml'] = ('inherit: [base]\ndepends:\n    - name: lib\n      environment: {P: "z"}\n'
+                                  'buildScript: |\n    vlog "via3 build"\n    { echo via3-build; reveal "${@:2}"; } > result.txt\n'
+                                  'packageScript: |\n    vlog "via3 package"\n    { echo via3-pkg; reveal "$1"; } > result.txt\n')
+    if v.get('twins'):
+        f['classes/twin.yaml'] = ('inherit: [base]\nbuildScript: |\n    vlog "twin build"\n    echo twin-build > result.txt\n'
+                                  'packageScript: |\n    vlog "twin package"\n    { echo twin-pkg; reveal "$1"; } > result.txt\n')
+        f['recipes/alpha.yaml'] = 'inherit: [twin]\n'
+        f['recipes/beta.yaml'] = 'inherit: [twin]\n'
     f['src/lib/a.txt'] = 'source-a-v%d\n' % v['srcmod']
     if v['srcadd']: f['src/lib/b.txt'] = 'source-b\n'
     return f
